@@ -311,7 +311,8 @@ class MetadataTable:
                 continue
 
             fh.seek(self.offset + entry.offset)
-            value = parser(fh, self.length) if parser is ParentLocator else parser(fh)
+            # The length of the region is a field of the file as well, a metadata item is at most 1 MiB
+            value = parser(fh, min(self.length, MB)) if parser is ParentLocator else parser(fh)
             self.lookup[item_id] = value
 
     def get(self, guid: UUID, required: bool = True) -> Any | None:
